@@ -48,6 +48,7 @@ class Gen:
         self.n = 0
         self.ir_version = ir_version
         self.gen = gen  # generator version: stored replay cases (no "gen" field) keep decoding with version 1
+        self.pending_main_value_info = []
 
     def fresh(self, prefix="v"):
         self.n += 1
@@ -147,7 +148,11 @@ class Gen:
         if allow_external and self.t.flag("external_tensor", 7):
             tp.data_location = onnx.TensorProto.EXTERNAL
             e = tp.external_data.add()
-            e.key, e.value = "location", ["weights.bin", "sub/dir/w.data", "m.onnx.data"][self.t.pick(3)]
+            locs = ["weights.bin", "sub/dir/w.data", "m.onnx.data"]
+            if self.gen >= 3:
+                # legal but not canonical spellings: the string is a storage field and has to come back as written
+                locs = locs + ["./weights.bin", "sub//w.data", "sub/./w.data", "a/../w.bin", "dir/w.bin/", " spaced name.bin"]
+            e.key, e.value = "location", locs[self.t.pick(len(locs))]
             if self.t.flag():
                 e = tp.external_data.add()
                 e.key, e.value = "offset", str([0, 4096, 7][self.t.pick(3)])
@@ -411,8 +416,13 @@ class Gen:
                 fp.attribute_proto.add().CopyFrom(ap)
                 attrs.append(nm)
         produced = []
-        for _ in range(1 + self.t.pick(4)):
+        # version 3: a function body may be empty (its outputs are then its inputs)
+        n_body = self.t.pick(5) if (self.gen >= 3 and ins) else 1 + self.t.pick(4)
+        for _ in range(n_body):
             produced.extend(self.node(fp.node.add(), ins + produced, [], 1, fn_attrs=attrs or None))
+        if not produced:
+            fp.output.append(ins[0])
+            self.t.features.add("function_with_empty_body")
         for _ in range(min(len(produced), 1 + self.t.pick(2))):
             o = produced[self.t.pick(len(produced))]
             if o not in fp.output:
@@ -423,6 +433,15 @@ class Gen:
                     vi = onnx.ValueInfoProto()
                     if self.value_info(vi, v, allow_empty=False):
                         fp.value_info.append(vi)
+        elif self.gen >= 3:
+            # before IR version 10 a FunctionProto has no value_info: the entries live in the main graph under
+            # "{domain}::{function}/{value}" (what exporters of that time wrote)
+            for v in ins + produced:
+                if self.t.flag("function_value_info_ir9", 3):
+                    vi = onnx.ValueInfoProto()
+                    if self.value_info(vi, v, allow_empty=False):
+                        vi.name = f"{fp.domain}::{fp.name}/{v}"
+                        self.pending_main_value_info.append(vi)
 
     def model(self):
         mp = onnx.ModelProto()
@@ -445,6 +464,11 @@ class Gen:
             for _ in range(self.t.pick(3)):
                 self.function(mp.functions.add(), irv)
                 self.t.features.add("function")
+            seen_fn = set()
+            for vi in self.pending_main_value_info:
+                if vi.name not in seen_fn:  # (two generated functions may share domain and name)
+                    seen_fn.add(vi.name)
+                    mp.graph.value_info.append(vi)
         if irv >= 11 and self.t.flag("device_configuration", 2):
             cfgs = []
             for _ in range(1 + self.t.pick(2)):
